@@ -189,9 +189,11 @@ RayCasting<Scalar, DIM>::cast(const PointType & originPoint, const PointType & e
 template<>
 void RayCasting<float, 2>::next(CellIndexes & cellIndexes)
 {
-  // find minimum rayTMax_
+  // find minimum rayTMax_ among the axes that have not reached the end cell yet
   // increment current position
-  if (rayTMax_[0] < rayTMax_[1]) {
+  const float tMax0 = cellIndexes[0] != rayEndIndexes_[0] ? rayTMax_[0] : std::numeric_limits<float>::max();
+  const float tMax1 = cellIndexes[1] != rayEndIndexes_[1] ? rayTMax_[1] : std::numeric_limits<float>::max();
+  if (tMax0 < tMax1) {
     cellIndexes[0] += rayStep_[0];
     rayTMax_[0] += rayTDelta_[0];
   } else {
@@ -203,9 +205,11 @@ void RayCasting<float, 2>::next(CellIndexes & cellIndexes)
 template<>
 void RayCasting<double, 2>::next(CellIndexes & cellIndexes)
 {
-  // find minimum rayTMax_
+  // find minimum rayTMax_ among the axes that have not reached the end cell yet
   // increment current position
-  if (rayTMax_[0] < rayTMax_[1]) {
+  const double tMax0 = cellIndexes[0] != rayEndIndexes_[0] ? rayTMax_[0] : std::numeric_limits<double>::max();
+  const double tMax1 = cellIndexes[1] != rayEndIndexes_[1] ? rayTMax_[1] : std::numeric_limits<double>::max();
+  if (tMax0 < tMax1) {
     cellIndexes[0] += rayStep_[0];
     rayTMax_[0] += rayTDelta_[0];
   } else {
@@ -217,9 +221,12 @@ void RayCasting<double, 2>::next(CellIndexes & cellIndexes)
 template<>
 void RayCasting<float, 3>::next(CellIndexes & cellIndexes)
 {
-  // find minimum tMax:
-  if (rayTMax_[0] < rayTMax_[1]) {
-    if (rayTMax_[0] < rayTMax_[2]) {
+  // find minimum tMax among the axes that have not reached the end cell yet:
+  const float tMax0 = cellIndexes[0] != rayEndIndexes_[0] ? rayTMax_[0] : std::numeric_limits<float>::max();
+  const float tMax1 = cellIndexes[1] != rayEndIndexes_[1] ? rayTMax_[1] : std::numeric_limits<float>::max();
+  const float tMax2 = cellIndexes[2] != rayEndIndexes_[2] ? rayTMax_[2] : std::numeric_limits<float>::max();
+  if (tMax0 < tMax1) {
+    if (tMax0 < tMax2) {
       cellIndexes[0] += rayStep_[0];
       rayTMax_[0] += rayTDelta_[0];
     } else {
@@ -227,7 +234,7 @@ void RayCasting<float, 3>::next(CellIndexes & cellIndexes)
       rayTMax_[2] += rayTDelta_[2];
     }
   } else {
-    if (rayTMax_[1] < rayTMax_[2]) {
+    if (tMax1 < tMax2) {
       cellIndexes[1] += rayStep_[1];
       rayTMax_[1] += rayTDelta_[1];
     } else {
@@ -240,9 +247,12 @@ void RayCasting<float, 3>::next(CellIndexes & cellIndexes)
 template<>
 void RayCasting<double, 3>::next(CellIndexes & cellIndexes)
 {
-  // find minimum tMax:
-  if (rayTMax_[0] < rayTMax_[1]) {
-    if (rayTMax_[0] < rayTMax_[2]) {
+  // find minimum tMax among the axes that have not reached the end cell yet:
+  const double tMax0 = cellIndexes[0] != rayEndIndexes_[0] ? rayTMax_[0] : std::numeric_limits<double>::max();
+  const double tMax1 = cellIndexes[1] != rayEndIndexes_[1] ? rayTMax_[1] : std::numeric_limits<double>::max();
+  const double tMax2 = cellIndexes[2] != rayEndIndexes_[2] ? rayTMax_[2] : std::numeric_limits<double>::max();
+  if (tMax0 < tMax1) {
+    if (tMax0 < tMax2) {
       cellIndexes[0] += rayStep_[0];
       rayTMax_[0] += rayTDelta_[0];
     } else {
@@ -250,7 +260,7 @@ void RayCasting<double, 3>::next(CellIndexes & cellIndexes)
       rayTMax_[2] += rayTDelta_[2];
     }
   } else {
-    if (rayTMax_[1] < rayTMax_[2]) {
+    if (tMax1 < tMax2) {
       cellIndexes[1] += rayStep_[1];
       rayTMax_[1] += rayTDelta_[1];
     } else {
